@@ -193,12 +193,20 @@ def check(ctx):
     ok = len(rv) == 1 and len(cs) == 1 and isinstance(arg(rv[0], None, "stack_frame"), ast.Name) and cs[0].args and norm(cs[0].args[0]) == norm(arg(rv[0], None, "stack_frame"))
     ctx.ob("C19.S3", "Registry.source/one-frame", ok, loc(rsrc), "the source node and its entry share one captured frame" if ok else
            "Registry.source uses different frames for the node and the entry")
+    rc = m.method("Registry", "copy", "S3")
+    dcs = [n for n in rc.own_nodes() if isinstance(n, ast.DictComp)]
+    ok = len(dcs) == 1 and (norm(dcs[0].value).startswith("copy.copy(") or "stack_frame=" in norm(dcs[0].value))
+    ctx.ob("C19.S3", "Registry.copy/keeps-frames", ok, loc(rc), "copied entries keep their stack frame (copy.copy of each entry)" if ok else
+           "Registry.copy rebuilds entries without their stack frame: failures of store calls planned from a copied registry are attributed to nothing")
+    from .extra import rule_capture_method_callers
+    ctx.run(rule_capture_method_callers, "C19.S1")
     er = E.discover(m)
     rr = R.discover(m, er)
-    W.rule_edge_effect_table(ctx, "C19.S3x", rr, rid_frames="C19.S3")
+    ctx.run(E.rule_first_error, "C19.S4", er)
+    ctx.run(W.rule_edge_effect_table, "C19.S3x", rr, rid_frames="C19.S3")
     ctx.obligations[:] = [o for o in ctx.obligations if o["rule"] != "C19.S3x"]
     # ---------------------------------------------------------------- S4
-    R.rule_cause_chain(ctx, "C19.S4", rr)
+    ctx.run(R.rule_cause_chain, "C19.S4", rr)
     ce = m.one_class("CallError", "S4")
     init = ce.methods["__init__"]
     ok = any("render_symbolic_traceback(call.stack_frame)" in norm(n) for n in init.own_nodes() if isinstance(n, ast.Call)) and \
